@@ -1,6 +1,8 @@
 import SparseSpace.Lemmas.ExtendSplitCont
 import SparseSpace.Lemmas.ExtendSplitV0
 import SparseSpace.Lemmas.ExtendSplitFuel
+import SparseSpace.Lemmas.ExtendSplitShift
+import SparseSpace.Lemmas.ExtendSplitV12Bounded
 /-!
 # C07 — extend–split areas tile the domain and each carries a valid local combination
 
@@ -311,6 +313,51 @@ theorem localValid_sound (dim : Nat) (lmin : Int) (c : List (LV × Int)) (h : lo
   have hv := SparseSpace.localValid_sound dim lmin c h
   exact ⟨fun k hk hm hJ => hv.pointwise k hk hm hJ, hv.total, fun k hk hm hJ F hF => hv.collapse k hk hm hJ F hF⟩
 
+/-! ### the version-0 local combination depends only on `lmax - coarsening` (bridge for C05) -/
+
+/-- raising `lmax` and the coarsening value together (what an extend of another area of coarsening 0 does to every
+other area, `k` times) leaves the list of `(coarsened level vector, coefficient)` computed by version 0 unchanged up to
+order -/
+theorem v0_local_depends_on_difference (dim : Nat) (lmin lmax c : Int) (k : Nat) (hd : 2 ≤ dim) (hc : 0 ≤ c) :
+    (computed 0 dim lmin (lmax + k) (c + k)).Perm (computed 0 dim lmin lmax c) :=
+  computed_v0_shift dim lmin lmax c k hd hc
+
+/-- hence the local combination value `Σ coefficient • Q(coarsened level vector)` of the area is unchanged, for every
+grid operation `Q` with values in a commutative group — the hypothesis of C05's `incremental_eq_spec` -/
+theorem v0_local_value_invariant {V : Type} [AddCommGroup V] (dim : Nat) (lmin lmax c : Int) (k : Nat) (hd : 2 ≤ dim)
+    (hc : 0 ≤ c) (Q : LV → V) :
+    localValue 0 dim lmin (lmax + k) (c + k) Q = localValue 0 dim lmin lmax c Q :=
+  localValue_v0_shift dim lmin lmax c k hd hc Q
+
+/-- state level: in every reachable state, every leaf that survives a `refine` operation (same identity before and
+after) keeps its box and its `lmax - coarsening` — whatever was refined, extend or split, `lmax` raised or not -/
+theorem surviving_leaf_keeps_level (dim : Nat) (lmin lmax nrbe : Int) (version : Nat) (auto single : Bool) (root : Box)
+    (ops : List ESOp) (hd : 1 ≤ dim) (hp : Proper root) (hl : root.length = dim) (pos : Nat) (e : Bool) (dims : List Nat)
+    (l : ESArea) (hlf : l ∈ (reach dim lmin lmax nrbe version auto single root ops).forest.leaves) (l' : ESArea)
+    (hlf' : l' ∈ ((reach dim lmin lmax nrbe version auto single root ops).refine pos e dims).forest.leaves)
+    (hid : l'.id = l.id) :
+    l'.box = l.box ∧
+    ((reach dim lmin lmax nrbe version auto single root ops).refine pos e dims).lmax - l'.coarsening =
+      (reach dim lmin lmax nrbe version auto single root ops).lmax - l.coarsening := by
+  obtain ⟨h1, h2⟩ := reach_inv dim lmin lmax nrbe version auto single root ops hd hp hl
+  exact refine_keeps_local_level _ pos e dims h1 h2 l hlf l' hlf' hid
+
+/-! ### versions 1 and 2 with `lmin = 1`: exhaustive on a finite parameter box -/
+
+/-- versions 1 and 2, `lmin = 1`, `dim ∈ {2,3,4}`, `lmax ≤ 5`, EVERY coarsening `0 ≤ c ≤ lmax` (kernel evaluation of
+all 120 parameter tuples; the computed scheme depends on nothing else, so this covers every history with `lmax ≤ 5`):
+the computed grids form a valid local combination — coefficient sum 1 at every grid point of the area, total sum 1,
+reproduction.  BOUNDED: the statement for all `dim`, `lmax` is open (no counterexample for `dim ≤ 5`, `lmax ≤ 7`). -/
+theorem v12_local_valid_lmin1_bounded (ver dim : Nat) (lmax c : Int) (hv : ver = 1 ∨ ver = 2)
+    (hd : 2 ≤ dim ∧ dim ≤ 4) (hl : 1 ≤ lmax ∧ lmax ≤ 5) (hc : 0 ≤ c ∧ c ≤ lmax) :
+    (∀ k : LV, k.length = dim → geAll 1 k → inDown (computed ver dim 1 lmax c) k = true →
+        domSum (computed ver dim 1 lmax c) k = 1) ∧
+    ((computed ver dim 1 lmax c).map (·.2)).sum = 1 ∧
+    (∀ {V : Type} [AddCommGroup V] (k : LV), k.length = dim → geAll 1 k → inDown (computed ver dim 1 lmax c) k = true →
+      ∀ F : LV → V, (∀ p ∈ computed ver dim 1 lmax c, F p.1 = F (meet p.1 k)) →
+        ((computed ver dim 1 lmax c).map fun p => p.2 • F p.1).sum = F k) :=
+  localValid_sound dim 1 _ (v12_localValid_lmin1_bounded ver dim lmax c hv hd hl hc)
+
 /-- termination of the model of the `while coarsening > 0` loop of versions 1 and 2: the fuel `coarsening` suffices
 (more fuel never changes the result), for every non-empty level vector -/
 theorem coarsen_loop_fuel (version dim : Nat) (lmin lmax cSave : Int) (topDiag : Bool) (c : Int) (t : LV) (ht : t ≠ [])
@@ -368,5 +415,11 @@ example : localValid 2 1 (computed 0 3 1 3 1) = false := by decide   -- wrong di
 example : localValid 3 1 (computed 0 3 1 4 2) = true := by decide
 example : localValid 2 2 (computed 1 2 2 4 1) = false := by decide
 example : localValid 2 1 (computed 1 2 1 3 1) = true := by decide
+-- versions 1 and 2 do not compute a standard scheme in general (here: the box `≤ (2,2,2)` plus the three axes to 3)
+example : (computed 1 3 1 4 1).length = 19 ∧ (stdScheme 3 1 3).length = 10 ∧ (stdScheme 3 1 2).length = 4 := by decide
+-- (lmax, c) vs (lmax+1, c+1): the same grids, often even in the same order …
+example : computed 0 3 1 4 2 = computed 0 3 1 3 1 := by decide
+-- … but not always in the same order, so `Perm` (not `=`) is the right statement
+example : computed 0 3 1 6 1 ≠ computed 0 3 1 5 0 := by decide
 
 end SparseSpace.C07
